@@ -601,6 +601,24 @@ func (w *qWorld) opPub(op Op) func() {
 		return func() { w.completeTCPPub(c, ps) }
 	case 3, 6: // HTTP /pub (6: with defer)
 		body := w.makeBody(r, sizeClass, false)
+		if op.S == "abort" && len(body) > 2 {
+			// an upload that breaks off: Content-Length announces the whole body, the
+			// connection ends after a part of it. Nothing was published, so nothing
+			// of it may ever be delivered (the part is a body nobody published).
+			cut := 1 + r.Intn(len(body)-1)
+			raw := fmt.Sprintf("POST /pub?topic=%s HTTP/1.1\r\nHost: nsqd\r\nContent-Length: %d\r\n\r\n", url.QueryEscape(topic), len(body))
+			if c, err := w.rc.Net.DialFrom(nil, w.httpAddr); err == nil {
+				c.SetLimitOut(0)
+				c.Write(append([]byte(raw), body[:cut]...))
+				if r.Chance(1, 2) {
+					c.Close()
+				} else {
+					c.Reset()
+				}
+				w.rc.Fault("http_upload_aborted")
+			}
+			return nil
+		}
 		var deferMs int64
 		q := "/pub?topic=" + url.QueryEscape(topic)
 		expect := 0
